@@ -28,6 +28,24 @@ PROPS = {
         "assumptions": COMMON_ASSUME[:1] + ["no schedule is explored: operations of a history are sequential; hangs are detected by a 20 s real-time watchdog per operation", "listening sockets are read from /proc/self/net/tcp{,6} joined with /proc/self/fd"],
         "must_hit": {"quick": ["failed-attempt:missing:htpasswd", "failed-attempt:port-in-use", "failed-attempt:restart-callback"], "thorough": ["failed-attempt:missing:htpasswd", "failed-attempt:port-in-use", "failed-attempt:restart-callback"]},
     },
+    "C14": {
+        "level": "exploration",
+        "budget": {"quick": 30, "thorough": 500},
+        "rule": "one evaluation = one seeded run: 2-6 concurrent proxied requests through one upstream block (pool 1-4, max_conns 0-3, max_fails 1-3, fail_timeout 0/1s/10s, try_duration 0/2s, any policy) with scripted per-attempt outcomes (ok, backend error before/after reading the body, transport panic), client cancellation while forwarded, backends going down/up and health-check flips; park points: between Select and the in-flight increment (Replacer.Set), inside RoundTrip, every network delivery; distinct = distinct fingerprint of the ordered (event kind, actor role) sequence; non-trivial = at least 20 steps",
+        "nontrivial_steps": 20,
+        "real_vs_stub": "real: site on casket.Start, httpserver, net/http server, proxy.NewStaticUpstreams, policies, Proxy.ServeHTTP retry loop, ReverseProxy; stub: backends (simulated RoundTripper in UpstreamHost.ReverseProxy.Transport = ground truth for forwards), TCP data path (simnet), clients, health checker, clock",
+        "assumptions": COMMON_ASSUME + ["ground truth for 'being forwarded' is the interval from RoundTrip entry to RoundTrip error return / response body close, compared with the counters only at quiescent points"],
+        "must_hit": {"quick": ["parked-in-select/forward-window", "two-forwards-to-one-backend", "client-cancel-while-forwarded", "transport-panic"], "thorough": ["parked-in-select/forward-window", "two-forwards-to-one-backend", "client-cancel-while-forwarded", "transport-panic"]},
+    },
+    "C05": {
+        "level": "exploration",
+        "budget": {"quick": 30, "thorough": 500},
+        "rule": "one evaluation = one seeded run: 1-6 concurrent requests (keys from small alphabets of client IP, URI and header value; bodies 0-5000 bytes) through one upstream block with pool 1-8, any of the 7 policies, max_conns, max_fails 1-3, fail_timeout, try_duration, and a fault schedule over the backends (failing/recovering, health-check flips, full); a quarter of the runs fix a static failing subset with one healthy backend, a quarter make every backend fail (retry oracles); availability is snapshotted at the instant of each selection; distinct = distinct fingerprint of the ordered (event kind, actor role) sequence; non-trivial = at least 15 steps",
+        "nontrivial_steps": 15,
+        "real_vs_stub": "same as C14",
+        "assumptions": COMMON_ASSUME + ["the retry oracle is asserted only when fail_timeout >= try_duration and the request ended before try_duration was spent; round_robin evenness is checked within windows of constant availability"],
+        "must_hit": {"quick": ["hash-selection-recorded", "retry-answered-by-healthy", "all-failing-502", "retry-resent-body"], "thorough": ["hash-selection-recorded", "retry-answered-by-healthy", "all-failing-502", "retry-resent-body"]},
+    },
     "C16": {
         "level": "exploration",
         "budget": {"quick": 30, "thorough": 400},
@@ -47,6 +65,18 @@ MANIFEST_TEXT = {
         "design_ref": "DESIGN.md 6 C07",
         "note": "TCP data path is simnet (accept queue shared by dup'ed descriptors, queued connections reset when the last descriptor closes); one known finding (net/http drops a connection whose request head completes after Shutdown began) is listed in known_findings.jsonl",
         "technique": DST + "; oracle: regular register over config versions + socket-table invariants",
+    },
+    "C14": {
+        "text": "seeded search over interleavings of concurrent proxied requests (with the request held inside the window between backend selection and counting, inside the forward, and at every network delivery) and over outcome/fault schedules; after every step, at quiescence, each backend's in-flight counter must equal the number of forwards the simulated transport actually has open, never exceed max_conns, the fail counter must equal the number of unexpired recorded failures on the simulated clock, Down() must agree with it, and both return to zero when traffic stops.",
+        "design_ref": "DESIGN.md 6 C14",
+        "note": "backends are a simulated RoundTripper (the ground truth); interleavings inside one reaction of the real code are not controlled",
+        "technique": DST + "; oracle: per-backend multiset of open forwards and unexpired failures compared with the real counters at every quiescent point",
+    },
+    "C05": {
+        "text": "seeded search over pools, policies, request keys and backend fault schedules against the real policies and retry loop: at the instant of every selection (availability snapshotted by a wrapping policy) an available backend must be returned whenever one exists and never an unavailable one; hash policies are sticky while availability is unchanged, first/least_conn/round_robin obey their definitions; with retries every attempt is offered the complete body, a healthy backend answers unless try_duration is spent, and all-failing pools end in 502.",
+        "design_ref": "DESIGN.md 6 C05",
+        "note": "retry oracles only in the decidable regime stated in the evidence assumptions; one known finding (single-backend pool retries without a body)",
+        "technique": DST + "; oracle: selection invariants at the instant of selection + retry/body oracles over the recorded attempt history",
     },
     "C08": {
         "text": "systematic enumeration of (failure kind x loading path x running-or-not), plus seeded sampling of longer histories of failed attempts followed by a valid load, each in a fresh process against the real casket; after every failed attempt the process's listening sockets (kernel truth), the running sites' responses, the event-hook registry and the instance list must equal their values before; the final valid load must return in bounded time and answer its battery exactly as the configuration specifies.",
